@@ -303,6 +303,10 @@ func genParse(c *genCtx) error {
 	}
 	docs := [][]byte{}
 	if c.want("digits") {
+		setCurrent("parse lenient sequences")
+		for _, d := range lenientDocs() {
+			writeDoc(po, c.sw, &j, d, nil, c.st)
+		}
 		setCurrent("parse digit runs")
 		digitRunInputs(c.thorough(), func(d []byte) { writeDoc(po, c.sw, &j, d, nil, c.st) })
 		setCurrent("parse long numbers")
